@@ -106,3 +106,44 @@ theorem eraseModeS_updateFromModeS (p : Plane) (m : Msg) (r : Bool) :
     eraseModeS_stage17, eraseModeS_stageCoded]
 
 end Sq
+
+namespace Sq
+
+/-- fields a Comm-B register decode (1,7 / 4,0 / 5,0 / 6,0 / 4,4 / 4,5) may assign: everything of
+    `eraseModeS` except the two code-selected ones (callsign, threat flag) -/
+def eraseRegs (p : Plane) : Plane :=
+  { p with cap1 := {}, selectedAltitude := none,
+           targetAltitudeSource := ' ', barometricPressureSetting := none, rollAngle := none,
+           track := none, trackAngleRate := none, grspeed := none, trueAirspeed := none,
+           bds50Timestamp := none, trackSource := ' ', trackTimestamp := none, heading := none,
+           indicatedAirspeed := none, machRaw := none, vrate := none, vrateSource := ' ',
+           headingSource := ' ', headingTimestamp := none, temperature := none, wind := none,
+           humidity := none, turbulence := none, pressure := none }
+
+theorem eraseRegs_stage17 (m : Msg) (st : Plane × Bool) : eraseRegs (stage17 m st).1 = eraseRegs st.1 := by
+  unfold stage17; repeat' split
+  all_goals rfl
+theorem eraseRegs_stage40 (m : Msg) (r : Bool) (st : Plane × Bool) : eraseRegs (stage40 m r st).1 = eraseRegs st.1 := by
+  unfold stage40; repeat' split
+  all_goals rfl
+theorem eraseRegs_stage50 (m : Msg) (r : Bool) (st : Plane × Bool) : eraseRegs (stage50 m r st).1 = eraseRegs st.1 := by
+  unfold stage50; repeat' split
+  all_goals rfl
+theorem eraseRegs_stage60 (m : Msg) (r : Bool) (st : Plane × Bool) : eraseRegs (stage60 m r st).1 = eraseRegs st.1 := by
+  unfold stage60; repeat' split
+  all_goals rfl
+theorem eraseRegs_stage44 (m : Msg) (st : Plane × Bool) : eraseRegs (stage44 m st).1 = eraseRegs st.1 := by
+  unfold stage44; repeat' split
+  all_goals rfl
+theorem eraseRegs_stage45 (m : Msg) (st : Plane × Bool) : eraseRegs (stage45 m st) = eraseRegs st.1 := by
+  unfold stage45; repeat' split
+  all_goals rfl
+
+/-- after the code-selected registers, nothing but register fields changes -/
+theorem eraseRegs_updateFromModeS (p : Plane) (m : Msg) (r : Bool) :
+    eraseRegs (p.updateFromModeS m r) = eraseRegs (stageCoded m p).1 := by
+  unfold Plane.updateFromModeS
+  rw [eraseRegs_stage45, eraseRegs_stage44, eraseRegs_stage60, eraseRegs_stage50, eraseRegs_stage40,
+    eraseRegs_stage17]
+
+end Sq
